@@ -223,9 +223,10 @@ class InfosetFilter(object):
             while "--" in data:
                 warnings.warn("Comments cannot contain adjacent dashes", DataLossWarning)
                 data = data.replace("--", "- -")
-            if data.endswith("-"):
-                warnings.warn("Comments cannot end in a dash", DataLossWarning)
-                data += " "
+        if ((self.preventDoubleDashComments or self.preventDashAtCommentEnd) and
+                data.endswith("-")):
+            warnings.warn("Comments cannot end in a dash", DataLossWarning)
+            data += " "
         return data
 
     def coerceCharacters(self, data):
